@@ -619,6 +619,7 @@ func TestVerifC17(t *testing.T) {
 			var terms []string
 			for _, q := range qs {
 				var o vfC17Obs
+				limTerm := cTuple(cN(0), "[]", "[]")
 				sr, err := s.Search(ctx, q.q, &zoekt.SearchOptions{})
 				if err != nil {
 					o.err = err.Error()
@@ -657,6 +658,61 @@ func TestVerifC17(t *testing.T) {
 						} else if !want && got[uint64(i)] && !e.Tombstone && !ft {
 							vfOracleFail("search-exact:unexpected-doc", fmt.Sprintf("query %s returns %s/%s which does not satisfy it", q.desc, e.Name, vfC17Files[d.file]), replay())
 						}
+					}
+					// ---- the same search under SearchOptions.ShardRepoMaxMatchCount in {0, 1, 2} (the skip-ahead branch of the document
+					// loop): still nothing hidden, nothing the unlimited search does not return, and per repository exactly the shortest
+					// prefix of its unlimited results whose match counts reach the limit (reference computed here from the unlimited result)
+					lim := r.Intn(3)
+					srl, err := s.Search(ctx, q.q, &zoekt.SearchOptions{ShardRepoMaxMatchCount: lim})
+					if err != nil {
+						vfOracleFail("search-error", "Search with ShardRepoMaxMatchCount returned an error: "+err.Error(), replay())
+					} else {
+						var wrows []string
+						var want []uint64
+						perRepo := map[string]int{}
+						for _, fm := range sr.Files {
+							p, ok := pos[fm.Repository+"\x00"+fm.FileName]
+							if !ok {
+								continue
+							}
+							wt := len(fm.LineMatches)
+							for _, cm := range fm.ChunkMatches {
+								wt += len(cm.Ranges)
+							}
+							wrows = append(wrows, cTuple(cN(p), cN(uint64(wt))))
+							if lim == 0 || perRepo[fm.Repository] < lim {
+								want = append(want, p)
+							}
+							perRepo[fm.Repository] += wt
+						}
+						var foundLim []uint64
+						for _, fm := range srl.Files {
+							p, ok := pos[fm.Repository+"\x00"+fm.FileName]
+							if !ok {
+								vfOracleFail("search-unknown-doc", "Search returned an unknown document "+fm.Repository+"/"+fm.FileName, replay())
+								continue
+							}
+							foundLim = append(foundLim, p)
+							if e := byName[fm.Repository]; e != nil {
+								if e.Tombstone {
+									vfOracleFail("hidden-search:repo", fmt.Sprintf("query %s with ShardRepoMaxMatchCount=%d returns file %s of tombstoned repository %s", q.desc, lim, fm.FileName, fm.Repository), replay())
+								}
+								if _, ft := e.FileTombstones[fm.FileName]; ft {
+									vfOracleFail("hidden-search:file", fmt.Sprintf("query %s with ShardRepoMaxMatchCount=%d returns tombstoned path %s of repository %s", q.desc, lim, fm.FileName, fm.Repository), replay())
+								}
+							}
+							if !got[p] {
+								vfOracleFail("search-limited:not-in-unlimited", fmt.Sprintf("query %s with ShardRepoMaxMatchCount=%d returns %s/%s which the unlimited search does not return", q.desc, lim, fm.Repository, fm.FileName), replay())
+							}
+						}
+						if fmt.Sprint(foundLim) != fmt.Sprint(want) {
+							vfOracleFail("search-limited:not-the-prefix", fmt.Sprintf("query %s with ShardRepoMaxMatchCount=%d returns documents %v, expected %v (per repository the shortest prefix of the unlimited result %v reaching the limit)", q.desc, lim, foundLim, want, o.found), replay())
+						}
+						wl := "[]"
+						if len(wrows) > 0 {
+							wl = cList(wrows)
+						}
+						limTerm = cTuple(cN(uint64(lim)), wl, cNList(foundLim))
 					}
 				}
 				rl, err := s.List(ctx, q.q, nil)
@@ -698,7 +754,7 @@ func TestVerifC17(t *testing.T) {
 					}
 				}
 				obs = append(obs, o)
-				terms = append(terms, cTuple(q.coq, cNList(o.found), cNList(o.listed)))
+				terms = append(terms, cTuple(q.coq, cNList(o.found), cNList(o.listed), limTerm))
 			}
 			return obs, cList(terms)
 		}
